@@ -604,3 +604,66 @@ def t10_system_parsystem_siblings(prog):
         if _norm_sys(a['trait']['args'][1:], na) != _norm_sys(b['trait']['args'][1:], nb):
             r.viol('T10', tp + '/trait-args-differ', impl_loc(b), 'trait arguments of the sibling impls differ')
     return r
+
+
+@rule('T11', props=['C03', 'C05', 'C14', 'C07'], floor=5, configs=('all', 'default'))
+def t11_view_indices(prog):
+    """CanonicalViews::indices (the bit indices that optional sub-views and entry filters consult): in every
+    cons impl the head index evaluates to LEN(R_) - LEN(R) - 1 for the *whole* registry R_ and the tail R, and
+    the recursion hands the same whole registry R_ (the method's own type parameter) to the tail with the
+    tail's views/containments; the NotContained impl only recurses. A tail-relative index would make
+    later views test the wrong identifier bit."""
+    from . import pathsem
+    r = Result()
+    for imp in prog.facts['impls']:
+        if not imp['trait'] or not imp['trait']['path'].endswith('registry::sealed::view::CanonicalViews') or imp['self'].get('k') != 'tuple':
+            continue
+        fs = [f for f in prog.impl_methods(imp) if f.name == 'indices']
+        if not fs:
+            continue
+        f = fs[0]
+        ta = [a for a in imp['trait']['args'] if a.get('k') != 'region']
+        contained = not any(ty_mentions(a, lambda n: is_adt(n, 'registry::contains::NotContained')) for a in ta[2:3]) if len(ta) > 2 else True
+        key = 'CanonicalViews::indices[%s]' % ty_str(ta[1])[:40] if len(ta) > 1 else f.path
+        r.inst(key)
+        E = pathsem.analyse(prog, f)
+        rets = [p for p in E.paths if p.ended == 'return']
+        own = [g for g in f.d['generics'] if g['kind'] == 'type' and g['idx'] >= len(imp['generics'])]
+        tail_ty = imp['self']['e'][1]
+        if len(rets) != 1 or E.truncated or len(own) != 1:
+            r.viol('T11', key + '/shape', f.loc(), 'indices must be a single straight-line computation generic over the whole registry')
+            continue
+        p = rets[0]
+        whole = own[0]
+        rec = p.calls(lambda e: e['name'] == 'indices')
+        if len(rec) != 1:
+            r.viol('T11', key + '/recursion', f.loc(), 'indices must recurse into the tail exactly once (found %d)' % len(rec))
+            continue
+        ga = [a for a in rec[0]['f']['args'] if a.get('k') != 'region']
+        if not (ga and ty_eq(ga[0], tail_ty)):
+            r.viol('T11', key + '/recursion-self', f.loc(rec[0]['ln']), 'the recursion is not on the registry tail')
+        if not (ga and ga[-1].get('k') == 'param' and ga[-1].get('idx') == whole['idx']):
+            r.viol('T11', key + '/recursion-registry', f.loc(rec[0]['ln']),
+                   'the recursion passes %s as the whole registry instead of this call\'s own %s: the tail\'s indices become relative to the wrong registry' % (ty_str(ga[-1]) if ga else '?', whole['name']))
+        v = p.ret
+        if contained:
+            if not (isinstance(v, tuple) and v[0] == 'agg' and v[1] == 'tuple' and len(v[4]) == 2 and v[4][1] == rec[0]['ret']):
+                r.viol('T11', key + '/shape', f.loc(), 'indices must be (head index, indices of the tail)')
+                continue
+            for (lw, lt) in ((1, 0), (5, 0), (9, 3), (17, 16), (40, 7)):
+                def leaf(t, lw=lw, lt=lt):
+                    if t[0] == 'k' and isinstance(t[1], str) and '::LEN<' in t[1]:
+                        inner = t[1][t[1].index('::LEN<') + 6:-1]
+                        if inner == whole['name']:
+                            return lw
+                        if inner == ty_str(tail_ty):
+                            return lt
+                    return None
+                got = pathsem.evaluate(v[4][0], leaf)
+                if got != lw - lt - 1:
+                    r.viol('T11', key + '/head-index', f.loc(), 'head index evaluates to %s for LEN(%s)=%d, LEN(%s)=%d; expected LEN(%s) - LEN(%s) - 1' % (got, whole['name'], lw, ty_str(tail_ty), lt, whole['name'], ty_str(tail_ty)))
+                    break
+        else:
+            if v != rec[0]['ret']:
+                r.viol('T11', key + '/shape', f.loc(), 'a component that is not viewed contributes no index: indices must be the tail\'s indices')
+    return r
